@@ -314,6 +314,7 @@ theorem C16_site_16_variant (e : Enum) (hv : validate (.enum e) = []) (v : Varia
         apply ext_validateDedicatedMemberAttrs
         apply ext_validateDedicatedMemberAttrs
         apply ext_parentTypePass
+        apply ext_validateParentAttrs
         apply ext_barkAtMemberAttr
         exact hm
       · apply ext_validateDedicatedMemberAttrs
